@@ -201,6 +201,8 @@ class QuantileLinearRegression(LinearRegression):
                 y, pred, self.quantile, sample_weight
             )
             if mult is not None:
-                epsilon *= mult * 2
+                # same weights as in fit, quantile for targets above the
+                # prediction, 1 - quantile for targets below
+                epsilon *= (1 - mult) * 2
             return epsilon.sum() / X.shape[0]
         return mean_absolute_error(y, pred, sample_weight=sample_weight)
